@@ -236,15 +236,20 @@ class Prop:
     ]
     trusted = ["C19 is partial: OS / pathlib / symlinks / special files other than 'skipped' are outside the model"]
     manifest = dict(
-        text=("Machine-checked theorems (Coq 8.16, no axioms) about an executable model of nutree/fs.py: for every abstract directory "
-              "(arbitrary nesting, arbitrary listing order) the loaded tree has exactly one node per file and folder at the same path "
-              "with name, directory flag, size and mtime; with sort=True every folder lists files sorted by name (code points) then "
-              "folders sorted by name and the result does not depend on the listing order; with sort=False the listing order is kept; "
-              "the FileSystemTree mappers are inverse on every entry the loader creates and save/load returns the same tree.  The model "
-              "is tied to /repo on every run by a correspondence check on real temporary directories and an independent os.scandir oracle."),
+        text=("Machine-checked theorems (Coq 8.16, no axioms) about an executable model of all of nutree/fs.py: for every abstract directory "
+              "(arbitrary nesting, arbitrary listing order, special files skipped) the loaded tree has exactly one node per file and folder "
+              "at the same path with name, directory flag, size and mtime -- read back as a directory it IS the scanned directory up to the "
+              "order of each listing; with sort=True every folder lists files sorted by name (code points) then folders sorted by name, the "
+              "result does not depend on the listing order at any depth and is the unique canonical tree with these properties; with "
+              "sort=False the listing order is kept; the function written with the loop structure of the source (files/dirs lists, Path "
+              "sort key, recursion after sorting) equals the structural one; the FileSystemTree mappers are inverse on every entry the "
+              "loader creates and save/load (to_list_iter / _from_list) returns the same tree; FileSystemEntry.__repr__ (calendar, "
+              "thousands format, repr of the name) is modelled with its own theorems.  The model is tied to /repo on every run by a "
+              "correspondence check on real temporary directories and an independent os.scandir / parse-back oracle."),
         note=("PARTIAL: the operating system, pathlib, symlinks and special files are outside the model (special files are modelled only as "
-              "'skipped'); json/zip transport is trusted. Trusted: Coq kernel + vm_compute; hand-written model theories/Forest/FsLoad.v; "
-              "harness. Print Assumptions: closed under the global context for all theorems."),
+              "'skipped'); json/zip transport, the Unicode database (printability) and the time zone (TZ=UTC in the harness) are inputs or "
+              "trusted. Trusted: Coq kernel + vm_compute; hand-written model theories/Forest/FsLoad.v, FsRepr.v; harness. "
+              "Print Assumptions: closed under the global context for all theorems."),
         technique="Coq proof about an executable Gallina model + differential correspondence check (vm_compute) on real directories + Python oracle",
         design_ref="DESIGN.md section 6 (C19)",
     )
